@@ -43,7 +43,10 @@ static void run(Src &s) {
   }
   std::vector<Consulted> cons = consulted_files(t, pa);
   materialise(t, pa, g_scr.dir);
-  g_case.desc = describe(t, pa);
+  // the options object of the readConfig entry points may have been through an earlier, failed read
+  pa.warmup_failed_read = s.chance(25);
+  if (pa.warmup_failed_read) g_case.tag("object_reused_after_failed_read");
+  g_case.desc = describe(t, pa) + (pa.warmup_failed_read ? " (options object reused after a failed read)" : "");
   g_case.nontrivial = cons.size() >= 2;
   g_case.shape_hash = tree_shape(t, pa);
   bool any_masked = false;
